@@ -38,10 +38,12 @@ var errDropExceptions = map[string]string{
 	"BloomSearchEngine.abortFileWriter:io.WriteCloser.Close": "cleanup of a file that already failed: the caller reports its original error and the pointer is tombstoned right after (C06.R2 checks that every failure exit passes through here)",
 }
 
+var storeMustCheck = map[string]bool{"DataStore.CreateFile": true, "DataStore.OpenFile": true, "MetaStore.Update": true}
+
 // c06R5: no error of the file-writing path is dropped or overwritten unchecked.
 func c06R5(w *World, r *Report) {
 	const rule = "C06.R5"
-	r.rule(rule, "no write error dropped: in the functions that produce a file (flush and merge write paths) the error of every Write/Close on a writer interface, and of every package function that (transitively) performs one, is tested, returned, wrapped or stored on every path before the function returns and before the same call site runs again", 20)
+	r.rule(rule, "no write error dropped: in the functions that produce a file (flush and merge write paths) the error of every Write/Close on a writer interface, and of every package function that (transitively) performs one, is tested, returned, wrapped or stored on every path before the function returns and before the same call site runs again", 26)
 	roots := []*ssa.Function{}
 	for _, n := range []string{"BloomSearchEngine.handleFlush", "BloomSearchEngine.merge"} {
 		if fn := fnOrUndecided(w, r, rule, n); fn != nil {
@@ -113,6 +115,11 @@ func c06R5(w *World, r *Report) {
 			}
 			switch {
 			case c.Call.IsInvoke() && (c.Call.Method.Name() == "Write" || c.Call.Method.Name() == "Close") && isWriterIface(c.Call.Value):
+				sites[c] = w.calleeName(&c.Call)
+			case storeMustCheck[w.calleeName(&c.Call)]:
+				// the store calls a file's existence and visibility depend on
+				// (TombstoneFile is cleanup: its error is reported where the
+				// protocol needs it — C13.R5 — and dropped on failure paths)
 				sites[c] = w.calleeName(&c.Call)
 			default:
 				if g := w.staticCallee(&c.Call); g != nil && writerFns[g] {
